@@ -143,6 +143,11 @@ func cmdVerify(args []string) int {
 	for _, k := range keys {
 		fn := p.funcs[k]
 		fc := p.contracts.Funcs[k]
+		if why, gone := p.unbound[k]; gone || fn == nil {
+			fmt.Printf("%-50s NOT-VERIFIED function not found: %s\n", k, why)
+			bad++
+			continue
+		}
 		if fc != nil && fc.Trusted != "" {
 			fmt.Printf("%-50s TRUSTED (%s)\n", k, fc.Trusted)
 			continue
